@@ -43,7 +43,7 @@ def check(ctx):
     ctx.floor("start_dispatch_sites", 1)
     for n, b in starts:
         loops = [l for l in enclosing_loops(n) if isinstance(l, ast.For)]
-        ok = bool(loops) and unparse(loops[0].iter) == "callbacks" and same(loops[0].target, b["M_cb"])
+        ok = bool(loops) and eqv(loops[0].iter, "callbacks") and same(loops[0].target, b["M_cb"])
         ctx.ob("MPT.start-over-active", n, "for cb in callbacks: cb[0](dsk)", ok)
         if not loops:
             continue
@@ -65,7 +65,7 @@ def check(ctx):
             ok = enclosing_stmt(a)._parent is lp and g.dominates(g.node_of(enclosing_stmt(n)._parent if isinstance(enclosing_stmt(n)._parent, ast.If) else n), g.node_of(a))
         ctx.ob("MPT.started-recorded", n, "started_cbs.append(cb) after cb's start ran, for every cb", ok, "" if ok else "a started callback is not recorded (its finish would be skipped) or is recorded before it started")
     # start_state after state construction
-    for n in [x for x in walk_no_nested(ga) if isinstance(x, ast.For) and unparse(x.iter) == "callbacks" and isinstance(x.target, ast.Tuple)]:
+    for n in [x for x in walk_no_nested(ga) if isinstance(x, ast.For) and eqv(x.iter, "callbacks") and isinstance(x.target, ast.Tuple)]:
         names = [unparse(e) for e in n.target.elts]
         used = [nm for nm in names if nm != "_"]
         cs = [c for c in calls(n, None, nested=False) if call_name(c) in used]
